@@ -4,6 +4,8 @@ import A2Verif.Lemmas.FsCpmPut2
 import A2Verif.Lemmas.FsCpmPutAbs4
 import A2Verif.Lemmas.FsCpmAccept5
 import A2Verif.Lemmas.FsCpmProtect4
+import A2Verif.Lemmas.FsCpmGet5
+import A2Verif.Lemmas.FsCpmCat2
 import A2Verif.Lemmas.FsCpmQuery
 import A2Verif.Lemmas.FsCpmFormat
 import A2Verif.Lemmas.FsCpmCheck
@@ -316,6 +318,50 @@ theorem cpm_fits_is_accepted {d : Dpb} {r : Raw} {f : FImg} {now : Bytes} (h : I
       obtain ⟨r', hput⟩ := put_accepts (now := now) h hg.resv hc hg.put hsmall hbf hf.1 hf.2.1 hf.2.2.1 hf.2.2.2 ha hsp hname.1 habs hfree hext hts
       obtain ⟨a, b⟩ := put_step h hg.resv hg.put ha hput
       exact ⟨r', hput, a, b⟩
+
+/-! ## the queries: `get`, `catalog` -/
+
+/-- **`get` of the concrete model is the reading** (C01, the read path): when a2kit's `build_files` accepts the directory, a valid
+name that the independent reader lists is fetched by `get`, and what `get` returns is that file — the same chunk list (indices and
+block contents) and the reader's length (as the `u32` a file image carries).  `hm`: for `read_file` as written the entries of the file
+must be numbered the way `put` numbers them (every entry but the last by the last logical extent of its physical extent,
+`MidFullAt`; always true when EXM = 0); the repaired `read_file` (`absIdx`, `proposed_fixes/cpm-get-partial-extent.diff`) needs no
+such hypothesis. -/
+theorem cpm_get_is_reading {d : Dpb} {r : Raw} {x : Bytes} {absIdx : Bool} {f : FileRec} (h : Inv d r) (hd : DpbPut d)
+    (hb : okB (buildFiles d d.v3 (dirOf d r)) = true) (hx : isXnameValid x = true)
+    (hf : (volOf d r).lookup (canon x) = some f) (hm : absIdx = true ∨ MidFullAt d r (canon x)) :
+    ∃ g, Fs.Cpm.get d r x absIdx = .ok g ∧ g.chunks = f.chunks ∧ g.eof = f.eof % 4294967296 :=
+  get_is_reading h hd hb hx hf hm
+
+/-- the converse: whatever `get` returns successfully is the file the reader lists under `canon x` ("unlisted-not-fetchable") -/
+theorem cpm_get_sound {d : Dpb} {r : Raw} {x : Bytes} {absIdx : Bool} {g : Got} (h : Inv d r) (hd : DpbPut d)
+    (hget : Fs.Cpm.get d r x absIdx = .ok g) (hm : absIdx = true ∨ MidFullAt d r (canon x)) :
+    ∃ f, (volOf d r).lookup (canon x) = some f ∧ g.chunks = f.chunks ∧ g.eof = f.eof % 4294967296 :=
+  get_sound h hd hget hm
+
+/-- a name the reader does not list is reported `FileNotFound` ("deleted-not-fetchable") -/
+theorem cpm_get_missing {d : Dpb} {r : Raw} {x : Bytes} {absIdx : Bool} (h : Inv d r)
+    (hb : okB (buildFiles d d.v3 (dirOf d r)) = true) (hf : (volOf d r).lookup (canon x) = none) :
+    Fs.Cpm.get d r x absIdx = .error .fileNotFound := get_missing h hb hf
+
+/-- **C01 at the level of the two operations** ("once accepted by put, is returned by a later get of the same path with every
+stored chunk at the same index … and logical length"): if `put` accepted a file image in `PutArgsOk` and `build_files` accepts the
+directory afterwards, `get` of the same name succeeds and returns exactly the stored chunk indices, each chunk beginning with the
+stored bytes, and the stored length as CP/M records it — for `read_file` as written and as repaired (the files `put` writes are
+numbered as `read_file` expects, `put_midfull`).  `hb'` fails exactly when the image set an interface attribute F5–F8 and `put`
+accepted it (defect `cpm-put-interface-flags`, repaired). -/
+theorem cpm_get_after_put {d : Dpb} {r r' : Raw} {f : FImg} {now : Bytes} {absIdx : Bool} (h : Inv d r) (hg : DpbGood d)
+    (ha : PutArgsOk d f) (hop : Fs.Cpm.put d r f now = (.ok (), r')) (hb' : okB (buildFiles d d.v3 (dirOf d r')) = true) :
+    ∃ g, Fs.Cpm.get d r' f.fullPath absIdx = .ok g ∧ chunksMatch (putChunks f) g.chunks = true ∧
+      g.eof = (cpmParams d).eofRule f.eof % 4294967296 := get_after_put h hg.resv hg.put ha hop hb'
+
+/-- **`catalog_to_vec` of the concrete model is the listing of the reading** (C05, the API side): the rows are, up to order, the
+files the independent reader lists — the same paths (`rowPath`: `u:NAME.TYP` rows when some file is outside user area 0, else `NAME` with
+the type column) — and the block count of a row is the number of units the reader finds owned by that file -/
+theorem cpm_catalog_is_reading {d : Dpb} {r : Raw} {rows : List (Bytes × Nat × Bytes)} (h : Inv d r)
+    (hcat : Fs.Cpm.catalog d r = .ok rows) :
+    (rows.map rowPath).Perm (volOf d r).paths ∧
+    ∀ row ∈ rows, ∃ f ∈ (volOf d r).files, f.path = rowPath row ∧ row.2.1 = f.owned.length := catalog_spec h hcat
 
 /-! ## histories -/
 
@@ -678,6 +724,35 @@ example : ∃ g, (volOf exD3 (finalRaw exD3 (finalRaw exD3 exImg3 (exOps3.take 2
     obtain ⟨⟨g, a1, a2, _⟩, _⟩ := cpm_readonly_survives exGood3 (exOps3.drop 2) hinv hok3 hf hl
       (noUnlockB_spec (by decide +kernel))
     exact ⟨g, a1, a2⟩
+
+set_option maxRecDepth 100000 in
+/-- non-vacuity of `cpm_get_is_reading`: on the example image `get a.txt` returns the file the reader lists as `A.TXT` -/
+example : ((volOf exD exImg).lookup (canon [97, 46, 116, 120, 116])).isSome = true ∧
+    ∀ f, (volOf exD exImg).lookup (canon [97, 46, 116, 120, 116]) = some f →
+      ∃ g, Fs.Cpm.get exD exImg [97, 46, 116, 120, 116] false = .ok g ∧ g.chunks = f.chunks ∧ g.eof = f.eof % 4294967296 :=
+  ⟨by decide +kernel, fun _ hf => cpm_get_is_reading exImg_inv (by decide) (by decide +kernel) (by decide +kernel) hf
+    (Or.inr (by decide +kernel))⟩
+
+set_option maxRecDepth 100000 in
+/-- non-vacuity of `cpm_get_after_put`: `c.dat` (sparse) stored on the example image is fetched again -/
+example : ∃ g, Fs.Cpm.get exD (Fs.Cpm.put exD exImg exC [0, 0, 0, 0]).2 exC.fullPath false = .ok g ∧
+    chunksMatch (putChunks exC) g.chunks = true ∧ g.eof = (cpmParams exD).eofRule exC.eof % 4294967296 :=
+  cpm_get_after_put exImg_inv exGood (by decide +kernel)
+    (Prod.ext (by
+      have : okB (Fs.Cpm.put exD exImg exC [0, 0, 0, 0]).1 = true := by decide +kernel
+      revert this
+      cases (Fs.Cpm.put exD exImg exC [0, 0, 0, 0]).1 with
+      | ok u => intro _; rfl
+      | error e => intro h; cases h) rfl)
+    (by decide +kernel)
+
+set_option maxRecDepth 100000 in
+/-- non-vacuity of `cpm_catalog_is_reading`: the catalog of the example image (files in user areas 0 and 3) succeeds -/
+example : ∃ rows, Fs.Cpm.catalog exD exImg = .ok rows ∧ (rows.map rowPath).Perm (volOf exD exImg).paths := by
+  have hok : okB (Fs.Cpm.catalog exD exImg) = true := by decide +kernel
+  cases hc : Fs.Cpm.catalog exD exImg with
+  | error e => rw [hc] at hok; cases hok
+  | ok rows => exact ⟨rows, rfl, (cpm_catalog_is_reading exImg_inv hc).1⟩
 
 /-- `a.txt` with the interface attribute F5 set in `access` -/
 def exF5 : FImg := { exC with access := [32, 32, 32, 32, 160, 32, 32, 32, 32, 32, 32] }
